@@ -69,6 +69,9 @@ MUTATIONS = [
     ('implicit-tag-mode-switched-around-one-callee-and-switched-back-on-success-only', 'C08', 'emmet/markup/__init__.py',
      "    lorem(node, ancestors, config)\n",
      "    _mode = ELEMENT_MAP.pop('ul', None)\n    lorem(node, ancestors, config)\n    if _mode is not None:\n        ELEMENT_MAP['ul'] = _mode\n"),
+    ('per-call-log-parked-in-the-callers-cache', 'C08', 'emmet/stylesheet/__init__.py',
+     "        if config.cache is not None:\n            config.cache['stylesheet_snippets'] = snippets\n",
+     "        if config.cache is not None:\n            config.cache['stylesheet_snippets'] = snippets\n    if config.cache is not None:\n        config.cache.setdefault('stylesheet_recent', []).append(str(abbr))\n"),
     ('offset-not-advanced-in-push-field', 'C13', 'emmet/output_stream.py',
      "        self._push(field(index, placeholder, offset=self.offset, line=self.line, column=self.column))",
      "        val = field(index, placeholder, offset=self.offset, line=self.line, column=self.column)\n        self._value.append(val)\n        self.column += len(val)"),
